@@ -149,7 +149,8 @@ def check(col: Collector, tier: str):
     rets = [v for items in substituted_paths(mat.node) for k, v, *_ in items if k == "return"]
     ok = len(rets) == 1 and rets[0] is not None
     undecided = False
-    if len(rets) > 1:
+    hand_written = any(isinstance(n, (ast.For, ast.While)) for n in ast.walk(mat.node))
+    if len(rets) > 1 and hand_written:
         undecided = True
         col.defer("most_accurate_type has several return paths (a hand-written selection): C13.R4 returns-highest-priority-type not decided on this shape")
     if ok:
@@ -160,7 +161,7 @@ def check(col: Collector, tier: str):
             core = r.value
         elif isinstance(r, ast.Call) and call_name(r) == "max" and isinstance(r.func, ast.Name):
             core = r
-        if core is None and not (isinstance(r, ast.Call) and call_name(r) in ("min", "sorted")) \
+        if core is None and hand_written and not (isinstance(r, ast.Call) and call_name(r) in ("min", "sorted")) \
                 and not (isinstance(r, ast.Subscript) and isinstance(r.value, ast.Call) and call_name(r.value) == "sorted"):
             undecided = True
             col.defer(f"most_accurate_type returns `{src(r)[:60]}`: the choice is not made by sorted()/max() over the priority table "
